@@ -36,18 +36,22 @@ Definition field_ok (f : N * N) : Prop := 1 <= snd f <= 64.
 (* reading the widths of [fs] from a stream that starts with [fs] returns their values and leaves the rest *)
 Section RL.
 Variables evalid tvalid : N -> bool.
+(* any further property of the reader's state that successful reads preserve is carried along *)
+Variable Q : ibs -> Prop.
+Hypothesis Qstep : forall s c s' v, AInv s -> Q s -> read_bits s c = (s', Val v) -> Q s'.
 
-Lemma read_fields : forall fs s r, AInv s -> Forall field_ok fs -> fst r < 2 ^ snd r ->
+Lemma read_fields : forall fs s r, AInv s -> Q s -> Forall field_ok fs -> fst r < 2 ^ snd r ->
   (uval s, total s) = vec fs r ->
   exists s', read_list s (map snd fs) = (s', Some (map (fun f => fst f mod 2 ^ snd f) fs)) /\ AInv s' /\
-    (uval s', total s') = r.
+    (uval s', total s') = r /\ Q s'.
 Proof.
-  induction fs as [|f t IH]; intros s r HA Hok Hr Hv.
+  induction fs as [|f t IH]; intros s r HA HQ Hok Hr Hv.
   - exists s. cbn [map read_list]. cbn [vec fold_right] in Hv. auto.
   - inversion Hok as [|? ? Hf Ht]; subst. cbn [map read_list]. cbn [vec fold_right fst snd] in Hv. fold (vec t r) in Hv.
     set (vt := vec t r) in *. pose proof (vec_lt t r Hr) as Hvt. fold vt in Hvt.
     injection Hv as HU HT.
     destruct (read_bits_ok 66 s (snd f) HA Hf ltac:(unfold field_ok in Hf; clear - Hf; lia) ltac:(rewrite HT; clear; lia)) as (s1 & E & HA1 & T1 & U1).
+    assert (HQ1 : Q s1) by (eapply (Qstep s (snd f) s1); [exact HA|exact HQ|exact E]).
     unfold read_bits. rewrite E.
     set (val := fst f mod 2 ^ snd f) in *.
     assert (Hval : val < 2 ^ snd f) by (apply N.mod_lt; apply N.pow_nonzero; discriminate).
@@ -57,7 +61,7 @@ Proof.
     { rewrite Ed, HU. rewrite N.div_add_l by exact Hnz. rewrite N.div_small by exact Hvt. clear. lia. }
     assert (Em : uval s mod 2 ^ (total s - snd f) = fst vt).
     { rewrite Ed, HU. rewrite N.add_comm, N.mod_add by exact Hnz. apply N.mod_small. exact Hvt. }
-    destruct (IH s1 r HA1 Ht Hr) as (s' & E' & HA' & R').
+    destruct (IH s1 r HA1 HQ1 Ht Hr) as (s' & E' & HA' & R').
     { rewrite U1, T1, Em, Ed. symmetry. apply surjective_pairing. }
     rewrite E'. exists s'. rewrite Eq. auto.
 Qed.
@@ -78,18 +82,18 @@ Lemma sz_mask_cases i : (sz_mask i = 0 /\ (i = 0 \/ 281474976710656 <= i)) \/
   (sz_mask i = 1 /\ 0 < i < 65536) \/ (sz_mask i = 2 /\ 65536 <= i < 4294967296) \/
   (sz_mask i = 3 /\ 4294967296 <= i < 281474976710656).
 Proof.
-  unfold sz_mask. destruct (i =? 0) eqn:E0; [apply N.eqb_eq in E0; auto|]. apply N.eqb_neq in E0.
+  clear Qstep Q evalid tvalid. unfold sz_mask. destruct (i =? 0) eqn:E0; [apply N.eqb_eq in E0; auto|]. apply N.eqb_neq in E0.
   destruct (281474976710656 <=? i) eqn:E1; [apply N.leb_le in E1; auto|]. apply N.leb_gt in E1.
   destruct (4294967296 <=? i) eqn:E2; [apply N.leb_le in E2; right; right; right; lia|]. apply N.leb_gt in E2.
   destruct (65536 <=? i) eqn:E3; [apply N.leb_le in E3; right; right; left; lia|]. apply N.leb_gt in E3.
   right; left. lia.
 Qed.
 
-Theorem header_parse c s r : cfg_ok c -> AInv s -> fst r < 2 ^ snd r ->
+Theorem header_parse c s r : cfg_ok c -> AInv s -> Q s -> fst r < 2 ^ snd r ->
   (uval s, total s) = vec (header_fields c) r ->
-  exists s', read_header evalid tvalid s = (s', HOk (norm_cfg c)) /\ AInv s' /\ (uval s', total s') = r.
+  exists s', read_header evalid tvalid s = (s', HOk (norm_cfg c)) /\ AInv s' /\ (uval s', total s') = r /\ Q s'.
 Proof.
-  intros [Hck [Het Hev] [Htt Htv] [Hbs Hbm]] HA Hr Hv.
+  intros [Hck [Het Hev] [Htt Htv] [Hbs Hbm]] HA HQ0 Hr Hv.
   unfold header_fields in Hv.
   set (m := sz_mask (h_isize c)) in *.
   set (crc := hcksum (h_ck c) (h_etype c) (h_ttype c) (h_bsize c) (0 <? m) (h_isize c)) in *.
@@ -107,17 +111,17 @@ Proof.
   set (r3 := vec [(h_etype c, 5)] r4) in *. assert (H3 : fst r3 < 2 ^ snd r3) by (apply vec_lt; exact H4).
   set (r2 := vec [(h_ck c, 2)] r3) in *. assert (H2 : fst r2 < 2 ^ snd r2) by (apply vec_lt; exact H3).
   unfold read_header.
-  destruct (read_fields [(BS_TYPE, 32); (BS_VERSION, 4)] s r2 HA ltac:(repeat constructor; cbn; lia) H2 Hv) as (s1 & E1 & A1 & V1).
+  destruct (read_fields [(BS_TYPE, 32); (BS_VERSION, 4)] s r2 HA HQ0 ltac:(repeat constructor; cbn; lia) H2 Hv) as (s1 & E1 & A1 & V1 & Q1).
   cbn [map fst snd] in E1. rewrite E1. change (BS_TYPE mod 2 ^ 32) with BS_TYPE. change (BS_VERSION mod 2 ^ 4) with 6.
   rewrite N.eqb_refl. cbn [negb]. change (BS_VERSION <? 6) with false. change (6 <? 6) with false. cbv iota.
-  destruct (read_fields [(h_ck c, 2)] s1 r3 A1 ltac:(repeat constructor; cbn; lia) H3 V1) as (s2 & E2 & A2 & V2).
+  destruct (read_fields [(h_ck c, 2)] s1 r3 A1 Q1 ltac:(repeat constructor; cbn; lia) H3 V1) as (s2 & E2 & A2 & V2 & Q2).
   cbn [map fst snd] in E2. rewrite E2. change (2 ^ 2) with 4. rewrite (N.mod_small (h_ck c) 4) by (clear - Hck; lia).
   replace (h_ck c =? 3) with false by (symmetry; apply N.eqb_neq; clear - Hck; lia).
-  destruct (read_fields [(h_etype c, 5)] s2 r4 A2 ltac:(repeat constructor; cbn; lia) H4 V2) as (s3 & E3 & A3 & V3).
+  destruct (read_fields [(h_etype c, 5)] s2 r4 A2 Q2 ltac:(repeat constructor; cbn; lia) H4 V2) as (s3 & E3 & A3 & V3 & Q3).
   cbn [map fst snd] in E3. rewrite E3. change (2 ^ 5) with 32. rewrite (N.mod_small (h_etype c) 32) by exact Het. rewrite Hev. cbn [negb].
-  destruct (read_fields [(h_ttype c, 48)] s3 r5 A3 ltac:(repeat constructor; cbn; lia) H5 V3) as (s4 & E4 & A4 & V4).
+  destruct (read_fields [(h_ttype c, 48)] s3 r5 A3 Q3 ltac:(repeat constructor; cbn; lia) H5 V3) as (s4 & E4 & A4 & V4 & Q4).
   cbn [map fst snd] in E4. rewrite E4. rewrite (N.mod_small (h_ttype c) (2 ^ 48)) by exact Htt. rewrite Htv. cbn [negb].
-  destruct (read_fields [(N.shiftr (h_bsize c) 4, 28)] s4 r6 A4 ltac:(repeat constructor; cbn; lia) H6 V4) as (s5 & E5 & A5 & V5).
+  destruct (read_fields [(N.shiftr (h_bsize c) 4, 28)] s4 r6 A4 Q4 ltac:(repeat constructor; cbn; lia) H6 V4) as (s5 & E5 & A5 & V5 & Q5).
   cbn [map fst snd] in E5. rewrite E5.
   assert (Hbs4 : N.shiftr (h_bsize c) 4 mod 2 ^ 28 * 16 = h_bsize c).
   { rewrite N.shiftr_div_pow2. change (2 ^ 4) with 16. change (2 ^ 28) with 268435456.
@@ -126,13 +130,13 @@ Proof.
   rewrite Hbs4.
   replace ((h_bsize c <? MIN_BLOCK) || (MAX_BLOCK <? h_bsize c)) with false
     by (symmetry; apply orb_false_iff; split; [apply N.ltb_ge|apply N.ltb_ge]; clear - Hbs; lia).
-  destruct (read_fields [(m, 2)] s5 r7 A5 ltac:(repeat constructor; cbn; lia) Htl V5) as (s6 & E6 & A6 & V6).
+  destruct (read_fields [(m, 2)] s5 r7 A5 Q5 ltac:(repeat constructor; cbn; lia) Htl V5) as (s6 & E6 & A6 & V6 & Q6).
   cbn [map fst snd] in E6. rewrite E6. change (2 ^ 2) with 4. rewrite (N.mod_small m 4) by (clear - Hm3; lia).
   unfold r7, tailf in V6.
   destruct (sz_mask_cases (h_isize c)) as [[Em Hi]|Hmpos].
   - (* no size hint *)
     fold m in Em. rewrite Em in *. cbn [N.eqb N.ltb N.compare app] in *.
-    destruct (read_fields [(0, 15); (crc, 24)] s6 r A6 ltac:(repeat constructor; cbn; lia) Hr V6) as (s8 & E8 & A8 & V8).
+    destruct (read_fields [(0, 15); (crc, 24)] s6 r A6 Q6 ltac:(repeat constructor; cbn; lia) Hr V6) as (s8 & E8 & A8 & V8 & Q8).
     cbn [map fst snd] in E8. rewrite E8. change (2 ^ 24) with 16777216.
     assert (Ec : crc = hcksum (h_ck c) (h_etype c) (h_ttype c) (h_bsize c) false 0) by (unfold crc; rewrite Em; reflexivity).
     rewrite <- Ec, N.eqb_refl. exists s8. split; [|auto]. f_equal. unfold norm_cfg. fold m. rewrite Em. reflexivity.
@@ -144,9 +148,9 @@ Proof.
     replace (m =? 0) with false by (symmetry; apply N.eqb_neq; clear - Hm1; lia).
     change ([(h_isize c, 16 * m)] ++ [(0, 15); (crc, 24)]) with ([(h_isize c, 16 * m)] ++ [(0, 15); (crc, 24)]) in V6. rewrite vec_app in V6.
     set (r8 := vec [(0, 15); (crc, 24)] r) in *. assert (H8 : fst r8 < 2 ^ snd r8) by (apply vec_lt; exact Hr).
-    destruct (read_fields [(h_isize c, 16 * m)] s6 r8 A6 ltac:(repeat constructor; cbn; clear - Hm1; lia) H8 V6) as (s7 & E7 & A7 & V7).
+    destruct (read_fields [(h_isize c, 16 * m)] s6 r8 A6 Q6 ltac:(repeat constructor; cbn; clear - Hm1; lia) H8 V6) as (s7 & E7 & A7 & V7 & Q7).
     cbn [map fst snd] in E7. rewrite E7. rewrite (N.mod_small (h_isize c) _ Hil).
-    destruct (read_fields [(0, 15); (crc, 24)] s7 r A7 ltac:(repeat constructor; cbn; lia) Hr V7) as (s9 & E9 & A9 & V9).
+    destruct (read_fields [(0, 15); (crc, 24)] s7 r A7 Q7 ltac:(repeat constructor; cbn; lia) Hr V7) as (s9 & E9 & A9 & V9 & Q9).
     cbn [map fst snd] in E9. rewrite E9. change (2 ^ 24) with 16777216.
     assert (Ec : crc = hcksum (h_ck c) (h_etype c) (h_ttype c) (h_bsize c) true (h_isize c)).
     { unfold crc. replace (0 <? m) with true by (symmetry; apply N.ltb_lt; clear - Hm1; lia). reflexivity. }
@@ -174,7 +178,7 @@ Lemma header_fields_ok c : h_ck c <= 2 ->
   Forall field_ok (header_fields c) /\ Forall wop_ok (field_ops (header_fields c)).
 Proof.
   intros _. unfold header_fields.
-  destruct (sz_mask_cases (fun _ => true) (fun _ => true) (h_isize c)) as [[-> _]|[[-> _]|[[-> _]|[-> _]]]]; cbn [N.ltb N.compare app field_ops map fst snd];
+  destruct (sz_mask_cases (h_isize c)) as [[-> _]|[[-> _]|[[-> _]|[-> _]]]]; cbn [N.ltb N.compare app field_ops map fst snd];
     split; repeat constructor; cbn; lia.
 Qed.
 
@@ -199,7 +203,7 @@ Proof.
   { unfold r. cbn [fst snd]. rewrite N.pow_add_r. pose proof (bvs_lt rest_ops). pose proof (pow2_pos pad). nia. }
   assert (Hv : (uval (new_ibs rbuf (mkSrc (o_out s2) sched None 0)), total (new_ibs rbuf (mkSrc (o_out s2) sched None 0))) = vec (header_fields c) r).
   { rewrite U0, T0, Himg, Hlen. unfold r. rewrite <- vec_shift. injection EV as -> ->. reflexivity. }
-  destruct (header_parse evalid tvalid c _ r Hc A0 Hrl Hv) as (s' & Eh & A' & R').
+  destruct (header_parse evalid tvalid (fun _ => True) (fun _ _ _ _ _ _ _ => I) c _ r Hc A0 I Hrl Hv) as (s' & Eh & A' & R' & _).
   exists s'. split; [exact E1|]. split; [exact E2|]. split; [exact Eh|].
   rewrite (reader_program _ s' A' (rops_ok rest_ops Hrest)). injection R' as -> ->.
   replace (fst (bvs rest_ops) * 2 ^ pad) with (fst (bvs rest_ops) * 2 ^ pad + 0) by lia.
